@@ -126,3 +126,24 @@ pub proof fn axiom_ascii_prefix(s: &str, k: int)
         chars_of(s.spec_bytes().subrange(k, s.spec_bytes().len() as int)) =~= s@.subrange(k, s@.len() as int),
         k == s@.len() ==> s.spec_bytes().len() == k,
 {}
+
+/// `str::trim_ascii_end` / `trim_ascii_start`: only ASCII white space (HT, LF, FF, CR, SP) is removed
+pub open spec fn is_ascii_ws(c: char) -> bool { c == ' ' || c == '\t' || c == '\n' || c == '\x0c' || c == '\r' }
+pub assume_specification<'a>[ str::trim_ascii_end ](s: &'a str) -> (out: &'a str)
+    ensures
+        out@.is_prefix_of(s@),
+        out@.len() > 0 ==> !is_ascii_ws(out@.last()),
+        forall|i: int| out@.len() <= i < s@.len() ==> is_ascii_ws(#[trigger] s@[i]),
+        out.spec_bytes() =~= s.spec_bytes().subrange(0, out.spec_bytes().len() as int),
+        out.spec_bytes().len() <= s.spec_bytes().len(),
+        bnd(s.spec_bytes(), out.spec_bytes().len() as int),
+        out@ == chars_of(out.spec_bytes());
+pub assume_specification<'a>[ str::trim_ascii_start ](s: &'a str) -> (out: &'a str)
+    ensures
+        out@.is_suffix_of(s@),
+        out@.len() > 0 ==> !is_ascii_ws(out@[0]),
+        forall|i: int| 0 <= i < s@.len() - out@.len() ==> is_ascii_ws(#[trigger] s@[i]),
+        out.spec_bytes().len() <= s.spec_bytes().len(),
+        out.spec_bytes() =~= s.spec_bytes().subrange(s.spec_bytes().len() - out.spec_bytes().len(), s.spec_bytes().len() as int),
+        bnd(s.spec_bytes(), s.spec_bytes().len() - out.spec_bytes().len()),
+        out@ == chars_of(out.spec_bytes());
